@@ -196,6 +196,84 @@ func checkSlice(c sliceCase) error {
 	return nil
 }
 
+// ---- (a3) a null placeholder that is filled after the list was rendered ----
+
+type fillCase struct {
+	Fn    string `json:"fn"`
+	Arity int    `json:"arity"`
+	Hole  int    `json:"hole"`  // position of the placeholder
+	Wrap  string `json:"wrap"`  // how the placeholder is wrapped: "" | List | Union | Add | Custom
+	Other uint32 `json:"other"` // further positions holding plain Null()
+}
+
+// checkFill: a list with an empty-statement placeholder renders like the list without it; once
+// the placeholder has received a token, the same list must show that token at that position.
+func checkFill(c fillCase) error {
+	build := func(filled bool) ([]jen.Code, *jen.Statement) {
+		hole := &jen.Statement{}
+		if filled {
+			hole.Id("FILL")
+		}
+		var items []jen.Code
+		for i := 0; i < c.Arity; i++ {
+			switch {
+			case i == c.Hole:
+				switch c.Wrap {
+				case "List":
+					items = append(items, jen.List(hole))
+				case "Union":
+					items = append(items, jen.Union(hole, nil))
+				case "Add":
+					items = append(items, jen.Add(jen.Add(hole)))
+				case "Custom":
+					items = append(items, jen.Custom(jen.Options{Separator: ","}, jen.Null(), hole))
+				default:
+					items = append(items, hole)
+				}
+			case c.Other&(1<<uint(i)) != 0:
+				items = append(items, jen.Null())
+			default:
+				items = append(items, jen.Id(fmt.Sprintf("a%02d", i)))
+			}
+		}
+		return items, hole
+	}
+	items, hole := build(false)
+	f := reflect.ValueOf(recipe.Funcs[c.Fn])
+	var st *jen.Statement
+	if f.Type().NumIn() == 2 {
+		st = f.CallSlice([]reflect.Value{reflect.ValueOf(jen.Options{Open: "<", Close: ">", Separator: ";"}), reflect.ValueOf(items)})[0].Interface().(*jen.Statement)
+	} else {
+		st = f.CallSlice([]reflect.Value{reflect.ValueOf(items)})[0].Interface().(*jen.Statement)
+	}
+	render := func(s *jen.Statement) (string, error) {
+		file := jen.NewFile("p")
+		file.NoFormat = true
+		file.Add(jen.Id("head").Add(s).Id("tail"))
+		buf := &bytes.Buffer{}
+		err := file.Render(buf)
+		return buf.String(), err
+	}
+	before, err := render(st)
+	if err != nil {
+		return err
+	}
+	hole.Id("FILL") // the placeholder receives a token after the list has been rendered once
+	after, err := render(st)
+	if err != nil {
+		return err
+	}
+	wantItems, _ := build(true)
+	wantSt, err := callSlice(c.Fn, wantItems)
+	if err != nil {
+		return err
+	}
+	if after != wantSt {
+		return fmt.Errorf("%s: a placeholder at position %d (wrapped in %q) was filled after a first render (%q); the list now renders %q, a fresh list with the filled placeholder renders %q", c.Fn, c.Hole, c.Wrap, before, after, wantSt)
+	}
+	return nil
+}
+
 var customOpts = []*recipe.Opts{
 	{Open: "<", Close: ">", Separator: ";"},
 	{Open: "", Close: "", Separator: ","},
@@ -268,7 +346,7 @@ func firstDiff(a, b []byte) string {
 func TestC13(t *testing.T) {
 	r := hx.Start(t, "C13")
 	defer r.Finish(t)
-	r.Rule("(a) enumeration: every list construct (23 incl. Custom with 5 option sets) x arity 0..8 (thorough 0..12) x every subset of positions holding a null-like item (20 kinds: nil, typed nil *Statement / *Group, Null(), empty statement, Add(), List(), Union(), Tag(nil), Tag(map{}), delimiter-less Custom / CustomFunc groups (multi-line or not) made only of nulls, nests of those); the same Go slice handed to two constructs in a row x Empty() at one real position; (b) null policy applied to every list construct and the File body of real programs (corpus third / all files); non-trivial = >= 1 injected null in a list with >= 1 real item; distinct by case")
+	r.Rule("(a) enumeration: every list construct (23 incl. Custom with 5 option sets) x arity 0..8 (thorough 0..12) x every subset of positions holding a null-like item (20 kinds: nil, typed nil *Statement / *Group, Null(), empty statement, Add(), List(), Union(), Tag(nil), Tag(map{}), delimiter-less Custom / CustomFunc groups (multi-line or not) made only of nulls, nests of those); the same Go slice handed to two constructs in a row; a null placeholder filled after a first render x Empty() at one real position; (b) null policy applied to every list construct and the File body of real programs (corpus third / all files); non-trivial = >= 1 injected null in a list with >= 1 real item; distinct by case")
 	r.Assume("null-like items are only inserted as items of list constructs, never into a statement's call chain (Case(x).Null().Block() legitimately stops being a case block) and never beside a Dict in Values (documented precondition)")
 
 	ckL := hx.Check[listCase]{Name: "synthetic_list", Fn: checkList}
@@ -353,6 +431,15 @@ func TestC13(t *testing.T) {
 		return c
 	})
 
+	hx.Rapid(r, t, hx.Check[fillCase]{Name: "fill_after_render", Fn: checkFill}, r.N(1500, 15000), func(rt *rapid.T) fillCase {
+		c := fillCase{Fn: rapid.SampledFrom(fns).Draw(rt, "fn"), Arity: rapid.IntRange(1, 6).Draw(rt, "arity"), Wrap: rapid.SampledFrom([]string{"", "List", "Union", "Add", "Custom"}).Draw(rt, "wrap")}
+		c.Hole = rapid.IntRange(0, c.Arity-1).Draw(rt, "hole")
+		c.Other = rapid.Uint32().Draw(rt, "other") & (1<<uint(c.Arity) - 1)
+		r.NonTrivial(fmt.Sprintf("%+v", c))
+		r.Class("fill_after_render")
+		return c
+	})
+
 	// (b) programs
 	ckP := hx.Check[progCase]{Name: "program_null_policy", Fn: checkProg}
 	if !hx.Replay(r, ckP) {
@@ -393,7 +480,7 @@ func TestC13(t *testing.T) {
 					return
 				}
 				_, n := mutate.InjectNulls(p.Recipe, dec, 6)
-				if hx.Safe(func() error { return checkProg(c) }) != nil {
+				if r.Violations() < 2 && hx.Safe(func() error { return checkProg(c) }) != nil {
 					// minimise the program (the decisions are replayed on every candidate)
 					c.Src = recipe.Text(shrink.Source(src, func(b []byte) bool {
 						return hx.Safe(func() error { return checkProg(progCase{Name: c.Name, Src: recipe.Text(b), Dec: c.Dec}) }) != nil
